@@ -107,7 +107,7 @@ class IRGen:
             if self.k.p_hyphen_tokens and self.chance(self.k.p_hyphen_tokens):
                 ws = text.split(" ")
                 for at in sorted(r.sample(range(4, len(ws)), min(4, len(ws) - 4)), reverse=True):
-                    ws.insert(at, r.choice(["-", "--", "(lo - hi)", "pre- and", "well-known"]))
+                    ws.insert(at, r.choice(["-", "--", "(lo - hi)", "pre- and", "well-known", "https://example.org/zq/a_rather_long_path/of_the_documentation.html"]))
                 text = " ".join(ws)
             return text, "long"
         if self.chance(self.k.p_hostile_doc):
